@@ -2041,6 +2041,16 @@ impl World {
         self.round(if rng.chance(1, 2) { World::ff("sync") } else { gen_plan(rng, "sync", true) });
         let mut rounds = 1;
         let mut migrating = false;
+        if rng.chance(2, 3) {
+            if matches!(class, "scale-out" | "mixed") {
+                self.admin(&["add_nodes", "c1", "4", "-"]);
+                self.admin(&["migrate", "c1"]);
+                migrating = true;
+            } else if class == "scale-down" {
+                self.admin(&["scale_down", "c1", "8"]);
+                migrating = true;
+            }
+        }
         let max_rounds = 4;
         let mut steps = 0;
         while rounds < max_rounds && steps < 14 {
@@ -2085,8 +2095,15 @@ impl World {
                     };
                     self.round(gen_plan(rng, kind, true));
                     rounds += 1;
+                    if migrating && rng.chance(2, 3) {
+                        let all = rng.chance(1, 2);
+                        self.finish_some(rng, all);
+                    }
                 }
             }
+        }
+        if migrating && rng.chance(1, 2) {
+            self.finish_some(rng, true);
         }
         self.suffix();
     }
